@@ -1021,6 +1021,99 @@ def lanes_rule(ctx):
                "in order 0..7, so template positions are permuted after a write/read" % (cfg, got))
 
 
+def simd_build_rule(ctx):
+    """SIMDBUILD (C05, C07; AVX2 build): where a U31x8 is built from eight ids - in
+    U31x8::to_simd_vec and in U31x8::decode - the vector is an in-order load of the whole
+    8-element array: `_mm256_loadu_si256` / `_mm256_lddqu_si256` of `array.as_ptr()`, where the
+    array is the padded temporary (to_simd_vec: `[U31::MAX; 8]` overwritten by the chunk; decode:
+    the decoded `[U31; 8]`). `_mm256_set_epi32(a0..a7)` reverses the lanes (`setr` keeps them), a
+    masked load from the chunk leaves the padding lanes 0 - the empty BOS/EOS feature - instead
+    of the invalid id."""
+    from sym import Sym, show
+    crate = ctx.facts("B").lib
+    E = Effects(crate)
+    SC = "vibrato::dictionary::connector::raw_connector::scorer::"
+    targets = [SC + "U31x8::to_simd_vec"] + [p for p, f in crate.fns.items() if f.body and
+                                            f.j.get("impl_trait", "").startswith("bincode::Decode") and
+                                            str(f.j.get("impl_self_ty", "")).endswith("::U31x8")]
+    n = 0
+    for p in targets:
+        f = crate.fns.get(p)
+        if f is None or not f.body:
+            raise EngineError("SIMDBUILD: anchor lost: %s" % p)
+        fa = E.fa(p)
+        S = Sym(E, fa, depth=20)
+        makers = []
+        for b, t in fa.calls():
+            c = callee_of(t) or {}
+            nm = c.get("name") or ""
+            if nm.startswith("_mm256_") and fa.fn.locals[t["dest"]["l"]]["ty"].endswith("__m256i") and \
+                    not nm.startswith("_mm256_set1") and not nm.startswith("_mm256_setzero"):
+                makers.append((b, nm, t))
+        # judge the construction that ends up inside the U31x8 value
+        wrapped = set()
+        for b, i, s0 in fa.stmts():
+            rv = s0.get("rv")
+            if rv and rv["k"] == "agg" and str(rv.get("adt", "")).endswith("::U31x8") and rv["ops"]:
+                o = fa.origin(rv["ops"][0])
+                if o[0] == "call":
+                    wrapped.add(o[1])
+        makers = [m for m in makers if m[0] in wrapped]
+        if not makers:
+            raise EngineError("SIMDBUILD: no vector construction found in %s" % p)
+        for b, nm, t in makers:
+            n += 1
+            ok, why = False, "built with %s" % nm
+            if nm in ("_mm256_loadu_si256", "_mm256_lddqu_si256", "_mm256_load_si256"):
+                txt = show(S.operand(t["args"][0]))
+                whole = "as_ptr(" in txt
+                if p.endswith("to_simd_vec"):
+                    # the pointer is the padded temporary's, not the chunk's
+                    padded = "repeat" in txt and "chunks(" not in txt and "call@" not in txt
+                    ok = whole and padded
+                    why = "loaded from %s" % txt[:60]
+                else:
+                    ok = whole and "decode(" in txt
+                    why = "loaded from %s" % txt[:60]
+            elif nm in ("_mm256_setr_epi32", "_mm256_set_epi32") and len(t["args"]) == 8:
+                # element k of the (padded) array at argument position k (setr) / 7-k (set)
+                idx = []
+                for a in t["args"]:
+                    pl = op_place(a)
+                    k = None
+                    for _ in range(8):
+                        if pl is None:
+                            break
+                        ci = [e for e in pl["p"] if isinstance(e, dict) and ("ci" in e or "i" in e)]
+                        if ci:
+                            e0 = ci[0]
+                            if "ci" in e0:
+                                k = e0["ci"] if not isinstance(e0["ci"], dict) else e0["ci"].get("offset")
+                            else:
+                                di = fa.single_def(e0["i"])
+                                kk = op_const(di[3]["op"]) if di and di[2] == "assign" and di[3]["k"] == "use" else None
+                                k = kk.get("int") if kk else None
+                            break
+                        d = fa.single_def(pl["l"])
+                        if d is None or d[2] != "assign":
+                            if d is not None and d[2] == "call" and d[3]["args"]:
+                                pl = op_place(d[3]["args"][0])
+                                continue
+                            break
+                        rv = d[3]
+                        pl = op_place(rv["op"]) if rv["k"] in ("use", "cast") else rv.get("place") if rv["k"] == "ref" else None
+                    idx.append(k)
+                want = list(range(8)) if nm == "_mm256_setr_epi32" else list(range(7, -1, -1))
+                ok = idx == want
+                why = "%s with elements %s (in-order lanes need %s)" % (nm, idx, want)
+            ctx.ob("SIMDBUILD", "%s|%s" % (p.split("::")[-2] + "::" + p.split("::")[-1], nm), ok, fa.loc(b),
+                   "the vector is an in-order load of the whole 8-element array" if ok else
+                   "%s does not build its vector by an in-order load of the whole (padded) array (%s): "
+                   "lanes are reversed, or padding lanes become 0 (the empty BOS/EOS feature) instead "
+                   "of the invalid id" % ("::".join(p.split("::")[-2:]), why))
+    ctx.floor("SIMDBUILD", "vector constructions judged (AVX2 build)", n, 2)
+
+
 def run_c05_derived(ctx):
     derived_caches(ctx)
 
